@@ -250,7 +250,7 @@ def volume (args : List String) : String :=
       let count := Gen.Arith.get_cluster_count (BPB_TotSec16 := t16) (BPB_TotSec32 := t32) (first_data_sector := fds) (BPB_SecPerClus := spc)
       let bound := min fat.length (count + 2).toNat
       match Alloc.allocate (Alloc.params ty) fat hint bound n with
-      | none => "err PyFAT:28"
+      | none => s!"err PyFAT:28 hint={hint} fat={fnv fat}"
       | some r => s!"ok {showNatList r.clusters} {r.hint} {fnv r.fat}"
     | _, _, _, _, _, _, _, _ => "bad-op"
   | ["chain", ty, start, fat] =>
